@@ -15,6 +15,8 @@ import DSymVerif.Proofs.CosetReps
 import DSymVerif.Proofs.StabilizerGens
 import DSymVerif.Spec.C13
 
+set_option linter.unusedSectionVars false
+
 namespace DSymVerif.StabP
 open DSymVerif DSymVerif.Cosets DSymVerif.SpecC11 DSymVerif.CosetP DSymVerif.SpecC13
 
@@ -774,5 +776,170 @@ theorem compact_plain (hp : Plain t) (hn : t.nrGens = n) (hfull : Full n t) (hpo
     exact h3 c (List.mem_range.mpr hc) g hg
 
 end Compact
+
+/-! ### the result of both constructions -/
+
+section Final
+variable {α : Type} [BEq α] [LawfulBEq α] {act : α → Int → Option α} {n : Nat} {Good : α → Prop}
+
+theorem full_of_done {start : α} {t : Table} {lab : List α} (hl : LInv act n Good start t lab)
+    (hd : Done n t t.len) : Full n t := by
+  intro c hc g hg
+  have h0 := hd c hc g hg
+  obtain ⟨x, y, _, _, hy⟩ := hl.sound c g hg h0
+  have := (List.getElem?_eq_some_iff.mp hy).1
+  rw [hl.size]
+  exact ⟨h0, this⟩
+
+theorem length_one_of_no_letters {start : α} {t : Table} {lab : List α}
+    (hl : LInv act n Good start t lab) (hz : letters n = []) : t.rows.size = 1 := by
+  rw [hl.size]
+  have hall : ∀ y ∈ lab, y = start := by
+    intro y hy
+    obtain ⟨w, hw, hit⟩ := hl.reach y hy
+    cases w with
+    | nil => simp only [iterAct, Option.some.injEq] at hit; exact hit.symm
+    | cons g w => have := hw g (by simp); rw [hz] at this; cases this
+  have hpos := (List.getElem?_eq_some_iff.mp hl.pos).1
+  match lab, hl.nodup, hall, hpos with
+  | [a], _, _, _ => rfl
+  | a :: b :: r, hnd, hall, _ =>
+    have h1 := hall a (by simp)
+    have h2 := hall b (by simp)
+    rw [List.nodup_cons] at hnd
+    exact absurd (by rw [h1, h2]; simp) hnd.1
+
+/-- what both constructions deliver after `compact()` -/
+theorem labelled_result {start : α} {t : Table} {lab : List α} (hl : LInv act n Good start t lab)
+    (hd : Done n t t.len) {T : Table} (hT : t.compact = .ok T) :
+    Plain T ∧ T.nrGens = n ∧ T.rows.size = lab.length ∧ lab[0]? = some start ∧ lab.Nodup ∧
+      (∀ y ∈ lab, Good y ∧ ∃ w, (∀ g ∈ w, g ∈ letters n) ∧ iterAct act start w = some y) ∧
+      (∀ (i : Nat) (g : Int) (x : α), lab[i]? = some x → g ∈ letters n →
+        ∃ y j, act x g = some y ∧ T.get i g = .ok (some j) ∧ lab[j]? = some y) := by
+  have hfull := full_of_done hl hd
+  have hpos : 0 < t.rows.size := by
+    rw [hl.size]; exact (List.getElem?_eq_some_iff.mp hl.pos).1
+  obtain ⟨T', h1, h2, h3, h4, h5⟩ := compact_plain hl.plain hl.ngens hfull hpos
+    (length_one_of_no_letters hl)
+  rw [hT] at h1
+  injection h1 with h1
+  subst h1
+  refine ⟨h2, h3, by rw [h4, hl.size], hl.pos, hl.nodup, fun y hy => ⟨hl.good y hy, hl.reach y hy⟩, ?_⟩
+  intro i g x hi hg
+  have hil : i < t.rows.size := by rw [hl.size]; exact (List.getElem?_eq_some_iff.mp hi).1
+  obtain ⟨hnn, _⟩ := hfull i hil g hg
+  obtain ⟨x', y, hx', hy, hj⟩ := hl.sound i g hg hnn
+  rw [hi] at hx'
+  injection hx' with hx'
+  subst hx'
+  refine ⟨y, (cell t i (colOf n g)).toNat, hy, ?_, hj⟩
+  obtain ⟨hrg, _, _⟩ := inRange_of_mem hg
+  rw [get_plain h2 (by rw [h3]; exact hrg), h3]
+  have : cell T i (g + (n : Int)).toNat = cell t i (colOf n g) := h5 i hil g hg
+  rw [this]
+  unfold decode
+  rw [if_pos hnn]
+
+end Final
+
+section InterFinal
+open DSymVerif.Stab
+variable {ta tb : Tab} {n : Nat}
+
+theorem intersectionTable_spec (hca : complete ta n = true) (hcb : complete tb n = true)
+    (hia : InvConsistent ta n) (hib : InvConsistent tb n) {T : Table}
+    (h : intersectionTable (Table.ofView n ta) (Table.ofView n tb) = .ok T) :
+    ∃ lab : List (Nat × Nat),
+      Plain T ∧ T.nrGens = n ∧ T.rows.size = lab.length ∧ lab[0]? = some (0, 0) ∧ lab.Nodup ∧
+      (∀ y ∈ lab, PGood ta tb y ∧ ∃ w, (∀ g ∈ w, g ∈ letters n) ∧ iterAct (pairAct ta tb n) (0, 0) w = some y) ∧
+      (∀ (i : Nat) (g : Int) (x : Nat × Nat), lab[i]? = some x → g ∈ letters n →
+        ∃ y j, pairAct ta tb n x g = some y ∧ T.get i g = .ok (some j) ∧ lab[j]? = some y) := by
+  unfold intersectionTable at h
+  have hnA : (Table.ofView n ta).nrGens = n := rfl
+  have hnB : (Table.ofView n tb).nrGens = n := rfl
+  have hlA : (Table.ofView n ta).len = ta.size := by simp [Table.len, Table.ofView]
+  have hlB : (Table.ofView n tb).len = tb.size := by simp [Table.len, Table.ofView]
+  rw [hnA, hnB, hlA, hlB] at h
+  simp only [ne_eq, not_true_eq_false, if_false] at h
+  cases h0 : (Array.replicate ta.size (Array.replicate tb.size (-1 : Int)))[0]? with
+  | none => simp [h0] at h
+  | some row0 =>
+    simp only [h0] at h
+    rw [Array.getElem?_replicate] at h0
+    by_cases hta : 0 < ta.size
+    · simp only [hta, if_true, Option.some.injEq] at h0
+      subst h0
+      by_cases htb : 0 < (Array.replicate tb.size (-1 : Int)).size
+      · rw [if_pos htb] at h
+        have htb' : 0 < tb.size := by simpa using htb
+        generalize hs0 : (⟨Table.new n, (Array.replicate ta.size (Array.replicate tb.size (-1 : Int))).setIfInBounds 0
+            ((Array.replicate tb.size (-1 : Int)).setIfInBounds 0 0), #[(0, 0)]⟩ : Inter) = s0 at h
+        cases hloop : interLoop (Table.ofView n ta) (Table.ofView n tb) (ta.size * tb.size + 2) 0 s0 with
+        | err => simp [hloop] at h
+        | panic => simp [hloop] at h
+        | ok s' =>
+          simp only [hloop] at h
+          have hl0 : LInv (pairAct ta tb n) n (PGood ta tb) (0, 0) s0.table [(0, 0)] := by
+            subst hs0
+            refine ⟨plain_new n, rfl, rfl, rfl, List.nodup_singleton _, ?_, ?_, ?_, ?_, ?_⟩
+            · intro y hy; simp only [List.mem_singleton] at hy; subst hy; exact ⟨hta, htb'⟩
+            · intro y hy; simp only [List.mem_singleton] at hy; subst hy
+              exact ⟨[], by simp, rfl⟩
+            · intro c j; rw [cell_new]
+            · intro c j _; exact cell_new n c j
+            · intro c g _ hnn; rw [cell_new] at hnn; omega
+          have hc0 : InterCache ta tb s0 [(0, 0)] := by
+            subst hs0
+            constructor
+            · rfl
+            · intro a row hrow
+              simp only [Array.getElem?_setIfInBounds, Array.getElem?_replicate] at hrow
+              by_cases ha : 0 = a
+              · subst ha
+                simp only [if_true, Array.size_replicate, hta, Option.some.injEq] at hrow
+                rw [← hrow]; simp
+              · simp only [ha, if_false] at hrow
+                split at hrow
+                · injection hrow with hrow; rw [← hrow]; simp
+                · cases hrow
+            · intro a b row v hrow hv
+              simp only [Array.getElem?_setIfInBounds, Array.getElem?_replicate] at hrow
+              by_cases ha : 0 = a
+              · subst ha
+                simp only [if_true, Array.size_replicate, hta, Option.some.injEq] at hrow
+                subst hrow
+                simp only [Array.getElem?_setIfInBounds, Array.getElem?_replicate] at hv
+                by_cases hb : 0 = b
+                · subst hb
+                  simp only [if_true, Array.size_replicate, htb', Option.some.injEq] at hv
+                  rw [← hv]; simp
+                · simp only [hb, if_false] at hv
+                  split at hv
+                  · injection hv with hv
+                    have : (0, b) ∉ [((0 : Nat), (0 : Nat))] := by
+                      simp only [List.mem_singleton, Prod.mk.injEq, true_and]
+                      exact fun e => hb e.symm
+                    rw [if_neg this, ← hv]
+                  · cases hv
+              · simp only [ha, if_false] at hrow
+                split at hrow
+                · injection hrow with hrow
+                  subst hrow
+                  rw [Array.getElem?_replicate] at hv
+                  split at hv
+                  · injection hv with hv
+                    have : (a, b) ∉ [((0 : Nat), (0 : Nat))] := by
+                      simp only [List.mem_singleton, Prod.mk.injEq, not_and]
+                      exact fun e => absurd e.symm ha
+                    rw [if_neg this, ← hv]
+                  · cases hv
+                · cases hrow
+          obtain ⟨lab, hl, _, hd⟩ := interLoop_spec hca hcb hia hib _ 0 s0 s' _ hl0 hc0
+            (fun c hc => by omega) hloop
+          exact ⟨lab, labelled_result hl hd h⟩
+      · rw [if_neg htb] at h; cases h
+    · simp [hta] at h0
+
+end InterFinal
 
 end DSymVerif.StabP
